@@ -341,9 +341,11 @@ class Unit:
                         name = a
                 item = X.rewrite(item, d.text(), d.with_text(self.templates), count, d.line, log, name, nth=nth)
             elif d.kind == 'capture':
-                extra_caps.update(X.capture_only(item, d.text(), d.line, log, (d.arg.split() or ['R15'])[0]))
+                nth_ = next((int(a[4:]) for a in d.arg.split() if a.startswith('nth=')), None)
+                extra_caps.update(X.capture_only(item, d.text(), d.line, log, ([a for a in d.arg.split() if not a.startswith('nth=')] or ['R15'])[0], nth=nth_))
             elif d.kind == 'slice':
-                item = X.slice_item(item, d.text(), d.with_text(self.templates), d.line, log, (d.arg.split() or ['R15'])[0], extra_caps)
+                nth_ = next((int(a[4:]) for a in d.arg.split() if a.startswith('nth=')), None)
+                item = X.slice_item(item, d.text(), d.with_text(self.templates), d.line, log, ([a for a in d.arg.split() if not a.startswith('nth=')] or ['R15'])[0], extra_caps, nth=nth_)
         kind = blk.path.split(' :: ')[-1].split()[0]
         contracted = False
         if kind == 'fn':
